@@ -19,7 +19,7 @@ logger = logging.getLogger(__name__)
 PATTERNS = {
     'COMMENT': r'\#.*$',
     'STRING': r'"[^"\\]*(?:\\.[^"\\]*)*"',
-    'ALIGNMENT': r'~(?:[a-z]\.?)?[0-9]+(?:,[0-9]+)*',
+    'ALIGNMENT': r'~(?:[a-zA-Z]\.?)?[0-9]+(?:,[0-9]+)*',
     # ROLE cannot be made up of COLON + SYMBOL because it then becomes
     # difficult to detect anonymous roles: (a : b) vs (a :b c)
     'ROLE': r':[^ \t\r\n\v\f"()\/:~]*',
